@@ -190,6 +190,32 @@ impl<M: Math> LowRankMassMatrix<M> {
     }
 }
 
+#[cfg(nuts_rs_verif)]
+impl<M: Math> LowRankMassMatrix<M> {
+    /// All scales of the transformation in use (conformance checks only).
+    pub fn verif_dump(&self, math: &mut M) -> crate::verif::Json {
+        use crate::verif::{bits, bits_vec, json};
+        let inner = self.inner.as_ref().map(|inner| {
+            json!({
+                "vals_sqrt": bits_vec(&math.eigs_as_array(&inner.vals_sqrt)),
+                "vals_sqrt_inv": bits_vec(&math.eigs_as_array(&inner.vals_sqrt_inv)),
+                "logdet": bits(inner.logdet_contribution),
+                "mu": bits_vec(&math.box_array(&inner.mu)),
+                "n": inner.num_eigenvalues,
+            })
+        });
+        json!({
+            "stds": bits_vec(&math.box_array(self.diag.stds())),
+            "inv_stds": bits_vec(&math.box_array(self.diag.inv_stds())),
+            "mean": bits_vec(&math.box_array(self.diag.mean())),
+            "diag_logdet": bits(self.diag.logdet()),
+            "logdet": bits(self.logdet),
+            "id": self.id,
+            "inner": inner,
+        })
+    }
+}
+
 #[derive(Clone, Debug, Copy, Serialize, Deserialize)]
 pub struct LowRankSettings {
     pub store_mass_matrix: bool,
